@@ -80,7 +80,9 @@ class R(V):
     # CPython: two code objects are equal (and hash alike) when name, flags, first line, bytecode, constants, names ...
     # agree - co_filename is NOT compared (Objects/codeobject.c, code_richcompare).  Records of kind 'code' follow that:
     # the same function body at the same lines of two different files gives *equal, not identical* code objects.
-    NOT_COMPARED = {"code": ("co_filename",)}
+    # `ident` is the object's identity: two code objects with the same name, lines, bytecode and constants in the SAME pseudo-file
+    # (the __init__ of two dataclasses with the same fields, both at `<string>` line 2) are equal as dict keys and not identical.
+    NOT_COMPARED = {"code": ("co_filename", "ident")}
 
     def _cmp_fields(self) -> Dict[str, Any]:
         skip = R.NOT_COMPARED.get(self.kind)
@@ -1247,6 +1249,12 @@ class Interp:
             elif isinstance(v, R) and v.kind == "elem":
                 for i, t in enumerate(target.elts):
                     self._assign(t, R("proj", of=v, index=K(i)), st)
+            elif isinstance(v, Ref) and v.kind != "set" and isinstance(st.deref(v), list) and len(st.deref(v)) == len(target.elts):
+                for t, x in zip(target.elts, list(st.deref(v))):  # a, b = <a list built by the code>
+                    self._assign(t, x, st)
+            elif isinstance(v, R) and v.kind == "list" and "items" in v.fields and len(v.fields["items"]) == len(target.elts):
+                for t, x in zip(target.elts, v.fields["items"]):
+                    self._assign(t, x, st)
             else:
                 for t in target.elts:
                     self._assign(t, U("unpack"), st)
